@@ -132,6 +132,19 @@ fn build(e: &Value) -> Option<Built> {
     }
 }
 
+/// The same crystal description as an LJ state: placements must be the same (C04, C15 hold
+/// for hard and Lennard-Jones states alike).
+fn lj_placements(e: &Value) -> Option<(Vec<Matrix3<f64>>, Vec<Matrix3<f64>>)> {
+    let g = group(gs(e, "g"));
+    let st = PotentialState::from_group(LJShape2::circle(), &g).ok()?;
+    let mut j = serde_json::to_value(&st).ok()?;
+    place(&mut j, e);
+    let st: PotentialState<LJShape2> = serde_json::from_value(j).ok()?;
+    let rel = st.relative_positions().map(|t| mat(&t)).collect();
+    let cart = st.cartesian_positions().map(|t| mat(&t)).collect();
+    Some((rel, cart))
+}
+
 struct Obs {
     score: Option<f64>,
     rel: Vec<Matrix3<f64>>,
@@ -229,6 +242,8 @@ pub fn crystal(input: &str, out: &str) {
     let mut c15 = Tally::new();
     let mut critical = [0usize; 4];
     let mut lines = 0usize;
+    let mut oracle_checked = 0usize;
+    let mut oracle_mismatch: Vec<Value> = vec![];
     for line in f.lines() {
         let line = line.unwrap();
         if line.trim().is_empty() {
@@ -256,6 +271,30 @@ pub fn crystal(input: &str, out: &str) {
         };
         let verdict = gs(&e, "verdict");
         let minshell = gi(&e, "minshell");
+        // calibration of the floating-point oracle used on histories against TLC's exact verdict
+        if verdict != "na" {
+            let j = match &b {
+                Built::Poly(s) => serde_json::to_value(s).ok(),
+                Built::Mol(s) => serde_json::to_value(s).ok(),
+            };
+            if let Some(j) = j {
+                use crate::oracle::{lattice_verdict, Verdict};
+                let ov = lattice_verdict(&j, gs(&e, "g")).map(|v| v.0);
+                let agrees = match (ov, verdict) {
+                    (Some(Verdict::Overlap(_)), "overlap") => true,
+                    (Some(Verdict::Apart), "apart") => true,
+                    (Some(Verdict::Touch), "touch") => true,
+                    // a touch decided exactly may be a 1e-16 gap or penetration in floats: within band
+                    (Some(Verdict::Touch), _) => false,
+                    (Some(_), "touch") => false,
+                    _ => false,
+                };
+                oracle_checked += 1;
+                if !agrees {
+                    oracle_mismatch.push(json!({"state": e, "oracle": format!("{:?}", ov)}));
+                }
+            }
+        }
         for k in 1..4 {
             if minshell != 99 && minshell > k as i64 {
                 critical[k] += 1;
@@ -264,7 +303,9 @@ pub fn crystal(input: &str, out: &str) {
         let (u, d, h) = (gi(&e, "U") as f64, gi(&e, "D") as f64, gi(&e, "h") as f64);
         let (ax, bx, by) = (gi(&e, "ax") as f64, gi(&e, "bx") as f64, gi(&e, "by") as f64);
         // ---- C01: a scored state has no overlap anywhere in the tiling
-        c01.checked += 1;
+        if verdict != "na" {
+            c01.checked += 1;
+        }
         if verdict == "overlap" {
             c01.nontrivial += 1;
             if o.score.is_some() {
@@ -272,7 +313,9 @@ pub fn crystal(input: &str, out: &str) {
             }
         }
         // ---- C02: the score of a valid state is copies * area / cell area
-        c02.checked += 1;
+        if verdict != "na" {
+            c02.checked += 1;
+        }
         if verdict == "apart" {
             let unit = gs(&e, "unit");
             if unit == "lens" {
@@ -332,6 +375,18 @@ pub fn crystal(input: &str, out: &str) {
                 .collect();
             c15.fail(&e, "relative placements differ from the group's copies", json!(obs));
         }
+        // orientation + 2 pi and the Lennard-Jones state of the same description
+        match lj_placements(&e) {
+            Some((rel, cart)) => {
+                if !same_placements(&rel, &exp_rel, 1e-12) {
+                    c15.fail(&e, "LJ state: relative placements differ", json!(null));
+                }
+                if !same_placements(&cart, &exp_cart, 1e-12 * f64::max(1., ax / u)) {
+                    c04.fail(&e, "LJ state: cartesian placements differ", json!(null));
+                }
+            }
+            None => c15.skipped += 1,
+        }
         c04.checked += 1;
         c04.nontrivial += 1;
         let scale = f64::max(1., ax / u);
@@ -344,7 +399,10 @@ pub fn crystal(input: &str, out: &str) {
             c04.fail(&e, "cartesian placements differ from the symmetric model crystal", json!(obs));
         }
     }
-    let res = json!({"lines": lines, "critical": {"k1": critical[1], "k2": critical[2], "k3": critical[3]},
+    let res = json!({"lines": lines, "oracle_checked": oracle_checked,
+                     "oracle_mismatches": oracle_mismatch.len(),
+                     "oracle_first_mismatches": oracle_mismatch.iter().take(5).collect::<Vec<_>>(),
+                     "critical": {"k1": critical[1], "k2": critical[2], "k3": critical[3]},
                      "C01": c01.to_json(), "C02": c02.to_json(), "C04": c04.to_json(),
                      "C15": c15.to_json()});
     let mut fo = fs::File::create(out).expect("out");
